@@ -408,6 +408,8 @@ class PEP(object):
             expression._value = None
         for constraint_or_psd in self._list_of_constraints_sent_to_wrapper + self._list_of_psd_sent_to_wrapper:
             constraint_or_psd._dual_variable_value = None
+        for psd_matrix in self._list_of_psd_sent_to_wrapper:
+            psd_matrix.entries_dual_variable_value = None
         self.G_value, self.F_value, self.residual = None, None, None
 
         # Create an expression that serve for the objective (min of the performance measures)
@@ -753,8 +755,14 @@ class PEP(object):
                     message += " up to an error of {}".format(-lmi_dual_min_eig_val)
                 print(message)
             # - <psd_matrix, lmi_dual> <= 0
+            # Note the entries of an lmi are not necessarily symmetric as written:
+            # each of them is combined with the dual value of its own correspondence with the PSD matrix
+            # (the symmetric part of those dual values is the dual matrix of the lmi).
             for psd_matrix in self._list_of_psd_sent_to_wrapper:
-                constraints_combination -= np.sum(psd_matrix.eval_dual() * psd_matrix.matrix_of_expressions)
+                entries_dual = psd_matrix.entries_dual_variable_value
+                if entries_dual is None:
+                    entries_dual = psd_matrix.eval_dual()
+                constraints_combination -= np.sum(entries_dual * psd_matrix.matrix_of_expressions)
 
         # Scalar constraints
         # Dual of inequality constraints >= 0
